@@ -308,7 +308,7 @@ def main(tier: str) -> int:
                   site_of=lambda tr, k: SITE[tr["ev"][k - 1]["op"]] + "(" + (
                       tr["ev"][k - 1]["args"].get("obj") or {"kind": tr["ev"][k - 1]["args"]["tokens"][0][0]})["kind"] + ")")
     out.rule = ("every object of FileFormat_Gen (dense / sparse with pattern classes and two stored orders / Kruskal "
-                "ranks 1-3 / matrices, shapes incl. 1-way and singleton modes) with values from a catalogue of special "
+                "ranks 1-3 / matrices / plain arrays with 1, 3 and 4 modes, shapes incl. 1-way and singleton modes) with values from a catalogue of special "
                 "doubles (+-0, subnormals, extremes, adjacent doubles, integers > 2^53) and seeded random bit patterns; "
                 "three events per object: export (real file tokenised vs the specified token sequence), import of the "
                 "specification's file for index base 0 and 1, real round trip")
